@@ -22,6 +22,10 @@ def run(ctx):
                       "later substitution passes)")
     ctx.rule("R13-3", "line_to_cmds (; && || #) is applied to the line as typed: nothing derived from an expansion "
                       "flows into its argument")
+    ctx.rule("R13-5", "a word that is entirely one command substitution is left to the substitution pass: env_in_token has a "
+                      "guard (a pattern whose match makes it answer `no reference here`) of the shape ^ `$(` any-text+ `)` $, "
+                      "where any-text excludes nothing but a newline - in particular not `)`, so nested substitutions are "
+                      "covered (otherwise expand_env pastes variable values into the source text of the inner command)")
     ctx.rule("R13-4", "an expansion result is written into the token it was computed for: positions recorded while a pass "
                       "scans the token vector are not used after the vector's length changed (E-EDITLIST), so text "
                       "produced under one quote tag cannot land in a neighbouring word with a different tag")
@@ -34,6 +38,7 @@ def run(ctx):
         ctx.floor("R13-1", crate, "operator recognisers", len(res), 9)
         retag_rule(ctx, crate)
         split_rule(ctx, crate)
+        whole_subst_guard_rule(ctx, crate)
 
 
 def passes_in_order(crate):
@@ -237,3 +242,54 @@ def split_rule(ctx, crate):
             later = False
     ctx.ob("R13-3", b.path, "line_to_cmds is applied to the typed line, before any expansion", ok and later,
            key="R13-3|%s|split-first" % b.path, where=b.loc(calls[0]), crate=crate.kind)
+
+
+def whole_subst_guard_rule(ctx, crate):
+    from .. import refacts
+    b = crate.fn("shell::env_in_token")
+    if not ctx.require(b is not None, "R13-5", "R13-5|anchor", "shell::env_in_token not found"):
+        return
+    ctx.analysed(b)
+    false_blocks = {bi for bi, si in b.defs.get(0, []) if mir.const_bool(b.def_expr(bi, si)) is False}
+    other_defs = {bi for bi, si in b.defs.get(0, [])} - false_blocks
+    guards = []
+    for bb in sorted(b.reachable):
+        for tgt, atom, val in b.switch_edges(bb):
+            a = strip_sites(atom)
+            if val is True and a[0] == "call" and last_seg(a[1]) in ("re_contains", "is_match") and len(a[2]) >= 2:
+                lit = const_str(a[2][1]) if last_seg(a[1]) == "re_contains" else None
+                if lit is None:
+                    continue
+                # every path from the True target assigns the answer `false` first
+                seen, todo, ok = set(), [tgt], True
+                while todo:
+                    x = todo.pop()
+                    if x in seen:
+                        continue
+                    seen.add(x)
+                    if x in false_blocks:
+                        continue
+                    if x in other_defs or b.term(x)["k"] == "return":
+                        ok = False
+                        break
+                    todo.extend(b.succs[x])
+                if ok:
+                    guards.append((bb, lit))
+    found = None
+    for bb, lit in guards:
+        sh = refacts.info(lit).get("shape") or {}
+        items = sh.get("of") if sh.get("k") == "concat" else None
+        if not items or len(items) != 5:
+            continue
+        a0, l1, r2, l3, a4 = items
+        if a0.get("k") == "look" and a0.get("v") == "Start" and a4.get("k") == "look" and a4.get("v") == "End" and \
+                l1.get("k") == "lit" and l1.get("v") == "$(" and l3.get("k") == "lit" and l3.get("v") == ")" and \
+                r2.get("k") == "rep" and r2.get("min", 0) >= 1 and r2.get("max") is None and r2["of"].get("k") == "class":
+            found = (bb, lit, r2["of"].get("excl", ""), r2["of"].get("non_ascii"))
+    ok = found is not None and set(found[2]) <= {"\n"} and bool(found[3])
+    ctx.ob("R13-5", b.path, "guard for a word that is one whole `$( ... )`: the body may contain any character", ok,
+           key="R13-5|%s|whole-substitution-guard" % b.path, where=b.loc(found[0]) if found else "", crate=crate.kind,
+           detail=None if ok else ("no such guard among %d `answer no` patterns" % len(guards) if found is None else
+                                   "the body class of %r excludes %r: `$(echo $(echo $V))` is not recognised as one "
+                                   "substitution, $V is expanded into the inner command's source and its value is parsed "
+                                   "as syntax there" % (found[1], found[2])))
